@@ -954,10 +954,15 @@ fn shard(ctx: &Ctx, s: usize, n_random: u64, thorough: bool, rep: &mut Report) {
                 rep.count("decoded_header_large_sizes_tried");
             }
             let bytes = pic.encode();
-            let mut dec = Dec::new(flavour.sorenson(), false);
+            let mut dec = Dec::new(flavour.sorenson(), flavour.sorenson() && i % 4 == 3);
             rep.evaluations += 1;
             match dec.decode(&bytes) {
                 Outcome::Ok => {}
+                Outcome::Err(e) if (i as usize) >= big.len() => {
+                    // a valid intra picture of ordinary size on a fresh decoder has to decode, whatever options the decoder was built with
+                    rep.violation(format!("decoded-header/first-picture-rejected/{}", e), format!("{} {}x{} intra picture rejected with {} (scalability option: {})", flavour.name(), w, h, e, flavour.sorenson() && i % 4 == 3), coords());
+                    continue;
+                }
                 o => {
                     rep.count(&format!("skipped:decode:{}", o.short()));
                     continue;
